@@ -352,7 +352,8 @@ fn collect_markup_repr(markup: Markup<'_>) -> MarkupRepr {
                 repr.end_bound = Boundary::from_space(last.text());
                 last_line.nodes.pop();
             } else {
-                if is_block_elem(last) {
+                // A trailing `\` of the item must not meet the closing bracket: `\]` is an escape.
+                if is_block_elem(last) && !super::math::ends_with_linebreak(last) {
                     repr.end_bound = repr.end_bound.strip_space();
                 }
                 break;
